@@ -11,7 +11,10 @@ pub fn mt_of_shard(shard: usize) -> &'static str {
 }
 
 pub fn default_opts() -> GenOpts {
-    GenOpts { star_max: 3, allow_cap: true }
+    GenOpts {
+        star_max: 3,
+        allow_cap: true,
+    }
 }
 
 pub fn gen_valid_msg(mt: &str, src: &mut Src) -> GenMsg {
@@ -22,11 +25,15 @@ pub fn gen_valid_msg(mt: &str, src: &mut Src) -> GenMsg {
 pub fn is_tag_key(k: &str) -> bool {
     // `20`, `50K`, and occurrence-suffixed keys such as `34F_1`
     let k = match k.find('_') {
-        Some(i) if k[i + 1..].chars().all(|c| c.is_ascii_digit()) && i + 1 < k.len() => &k[..i],
+        Some(i) if k[i + 1..].chars().all(|c| c.is_ascii_alphanumeric()) && i + 1 < k.len() => {
+            &k[..i]
+        }
         _ => k,
     };
     let b = k.as_bytes();
-    (b.len() == 2 || (b.len() == 3 && b[2].is_ascii_uppercase())) && b[0].is_ascii_digit() && b[1].is_ascii_digit()
+    (b.len() == 2 || (b.len() == 3 && b[2].is_ascii_uppercase()))
+        && b[0].is_ascii_digit()
+        && b[1].is_ascii_digit()
 }
 
 fn tag_of_key(k: &str) -> String {
@@ -46,13 +53,21 @@ fn nested_option(k: &str, v: &Value) -> Option<(String, Value)> {
         return None;
     }
     let (lk, lv) = o.iter().next()?;
-    if lk.len() == 1 && lk.as_bytes()[0].is_ascii_uppercase() && lv.is_object() { Some((format!("{k}{lk}"), lv.clone())) } else { None }
+    if lk.len() == 1 && lk.as_bytes()[0].is_ascii_uppercase() && lv.is_object() {
+        Some((format!("{k}{lk}"), lv.clone()))
+    } else {
+        None
+    }
 }
 
 /// Occurrences of field values in a message-body JSON, as (sequence path, tag, value),
 /// in the order: top level first (sorted by tag, arrays in order), then each `#`
 /// element in array order.
-pub fn json_occurrences(v: &Value, path: &mut Vec<usize>, out: &mut Vec<(Vec<usize>, String, Value)>) {
+pub fn json_occurrences(
+    v: &Value,
+    path: &mut Vec<usize>,
+    out: &mut Vec<(Vec<usize>, String, Value)>,
+) {
     if let Value::Object(o) = v {
         for (k, val) in o {
             if is_tag_key(k) {
@@ -142,7 +157,10 @@ impl MutCase {
     }
     pub fn enveloped(&self) -> String {
         let nl = if self.crlf { "\r\n" } else { "\n" };
-        let mut s = format!("{{1:F01BANKDEFFAXXX0000000000}}{{2:I{}BANKDEFFAXXXN}}{{4:{}", self.mt, nl);
+        let mut s = format!(
+            "{{1:F01BANKDEFFAXXX0000000000}}{{2:I{}BANKDEFFAXXXN}}{{4:{}",
+            self.mt, nl
+        );
         for t in &self.toks {
             s.push(':');
             s.push_str(&t.tag);
@@ -156,13 +174,27 @@ impl MutCase {
 }
 
 pub fn toks_of(m: &GenMsg) -> Vec<Tok> {
-    m.fields.iter().map(|f| Tok { tag: f.tag.clone(), content: f.content.clone() }).collect()
+    m.fields
+        .iter()
+        .map(|f| Tok {
+            tag: f.tag.clone(),
+            content: f.content.clone(),
+        })
+        .collect()
 }
 
-const UNKNOWN_TAGS: &[&str] = &["99Z", "14A", "18A", "22C", "29B", "31C", "38J", "40A", "47A", "78", "83A", "95P", "00", "27"];
+const UNKNOWN_TAGS: &[&str] = &[
+    "99Z", "14A", "18A", "22C", "29B", "31C", "38J", "40A", "47A", "78", "83A", "95P", "00", "27",
+];
 
 /// documented repetition caps of sequences: (mt, cap)
-pub const CAPS: &[(&str, usize)] = &[("110", 10), ("204", 10), ("210", 10), ("935", 10), ("920", 100)];
+pub const CAPS: &[(&str, usize)] = &[
+    ("110", 10),
+    ("204", 10),
+    ("210", 10),
+    ("935", 10),
+    ("920", 100),
+];
 
 /// content that the field's own parser rejects and that cannot be mistaken for a field start
 pub fn bad_content_for(tag: &str, src: &mut Src) -> Option<String> {
@@ -170,7 +202,16 @@ pub fn bad_content_for(tag: &str, src: &mut Src) -> Option<String> {
     for _ in 0..6 {
         let c = crate::fieldkit::mutate(sp.ty, src);
         let t = &c.content;
-        if t.is_empty() || t.contains("\n:") || t.contains("\n-") || t.starts_with(':') || t.contains('\r') || !t.is_ascii() || t.starts_with('\n') || t.ends_with('\n') || t.contains("\n\n") {
+        if t.is_empty()
+            || t.contains("\n:")
+            || t.contains("\n-")
+            || t.starts_with(':')
+            || t.contains('\r')
+            || !t.is_ascii()
+            || t.starts_with('\n')
+            || t.ends_with('\n')
+            || t.contains("\n\n")
+        {
             continue;
         }
         if (crate::lib_api::field_ops(sp.ty).parse)(t).is_err() {
@@ -194,11 +235,26 @@ pub fn mutate_msg(mt: &str, src: &mut Src) -> MutCase {
     match src.below(12) {
         0 => {} // unmutated
         1 => {
-            let cand: Vec<&&str> = UNKNOWN_TAGS.iter().filter(|t| !known.iter().any(|k| k == **t)).collect();
+            let cand: Vec<&&str> = UNKNOWN_TAGS
+                .iter()
+                .filter(|t| !known.iter().any(|k| k == **t))
+                .collect();
             let t = cand[src.below(cand.len())].to_string();
             let pos = src.below(n + 1);
-            toks.insert(pos, Tok { tag: t.clone(), content: "HELLO".into() });
-            mutation = if pos == n { "unknown-tag-at-end".into() } else if pos == 0 { "unknown-tag-at-start".into() } else { "unknown-tag-inside".into() };
+            toks.insert(
+                pos,
+                Tok {
+                    tag: t.clone(),
+                    content: "HELLO".into(),
+                },
+            );
+            mutation = if pos == n {
+                "unknown-tag-at-end".into()
+            } else if pos == 0 {
+                "unknown-tag-at-start".into()
+            } else {
+                "unknown-tag-inside".into()
+            };
             tag = t;
         }
         2 => {
@@ -208,7 +264,13 @@ pub fn mutate_msg(mt: &str, src: &mut Src) -> MutCase {
             let t = toks[i].clone();
             tag = t.tag.clone();
             toks.insert(pos, t);
-            mutation = if pos == i || pos == i + 1 { "dup-adjacent".into() } else if pos == n { "dup-at-end".into() } else { "dup-distant".into() };
+            mutation = if pos == i || pos == i + 1 {
+                "dup-adjacent".into()
+            } else if pos == n {
+                "dup-at-end".into()
+            } else {
+                "dup-distant".into()
+            };
         }
         3 => {
             if n >= 2 {
@@ -236,7 +298,10 @@ pub fn mutate_msg(mt: &str, src: &mut Src) -> MutCase {
                 let t = match src.below(3) {
                     0 => toks[toks.len() - 1].clone(),
                     1 => toks[src.below(n)].clone(),
-                    _ => Tok { tag: UNKNOWN_TAGS[src.below(UNKNOWN_TAGS.len())].to_string(), content: "TRAIL".into() },
+                    _ => Tok {
+                        tag: UNKNOWN_TAGS[src.below(UNKNOWN_TAGS.len())].to_string(),
+                        content: "TRAIL".into(),
+                    },
                 };
                 tag = t.tag.clone();
                 toks.push(t);
@@ -246,9 +311,20 @@ pub fn mutate_msg(mt: &str, src: &mut Src) -> MutCase {
         6 => {
             // exceed the documented repetition cap by repeating the last sequence occurrence
             if let Some((_, cap)) = CAPS.iter().find(|(m, _)| *m == mt) {
-                let last_path: Option<Vec<usize>> = base.fields.iter().rev().find(|f| !f.path.is_empty()).map(|f| f.path.clone());
+                let last_path: Option<Vec<usize>> = base
+                    .fields
+                    .iter()
+                    .rev()
+                    .find(|f| !f.path.is_empty())
+                    .map(|f| f.path.clone());
                 if let Some(lp) = last_path {
-                    let idx: Vec<usize> = base.fields.iter().enumerate().filter(|(_, f)| f.path == lp).map(|(i, _)| i).collect();
+                    let idx: Vec<usize> = base
+                        .fields
+                        .iter()
+                        .enumerate()
+                        .filter(|(_, f)| f.path == lp)
+                        .map(|(i, _)| i)
+                        .collect();
                     let have = lp[0] + 1;
                     let extra = *cap + 1 + src.below(5) - have.min(*cap);
                     let insert_at = idx[idx.len() - 1] + 1;
@@ -283,13 +359,22 @@ pub fn mutate_msg(mt: &str, src: &mut Src) -> MutCase {
         10 => {
             // a field of another message type that this type does not know
             let other = MSGS[src.below(MSGS.len())].mt;
-            let ok: Vec<String> = known_tags(other).into_iter().filter(|t| !known.contains(t)).collect();
+            let ok: Vec<String> = known_tags(other)
+                .into_iter()
+                .filter(|t| !known.contains(t))
+                .collect();
             if !ok.is_empty() {
                 let t = ok[src.below(ok.len())].clone();
                 if let Some(sp) = crate::fieldkit::spec_of_tag(&t) {
                     let g = sp.g.generate(src);
                     let pos = src.below(n + 1);
-                    toks.insert(pos, Tok { tag: t.clone(), content: g.text });
+                    toks.insert(
+                        pos,
+                        Tok {
+                            tag: t.clone(),
+                            content: g.text,
+                        },
+                    );
                     mutation = "foreign-field".into();
                     tag = t;
                 }
@@ -308,5 +393,14 @@ pub fn mutate_msg(mt: &str, src: &mut Src) -> MutCase {
             }
         }
     }
-    MutCase { mt: mt.to_string(), toks, mutation, tag, bad_content, crlf, wrapper, envelope }
+    MutCase {
+        mt: mt.to_string(),
+        toks,
+        mutation,
+        tag,
+        bad_content,
+        crlf,
+        wrapper,
+        envelope,
+    }
 }
